@@ -180,6 +180,12 @@ func verifBuildWorld2(sim *verifsim.Sim) *verifWorld {
 		if k == 10 {
 			target = u("/notes/q3")
 		}
+		if k == 5 || k == 11 {
+			/* an address that spells the placeholders of the media hook: it is an address, nothing in it is replaced */
+			odd := u("/missing") + []string{"?to=%subtype&of=%supertype", "?as=%mimetype&again=%url"}[k%2]
+			w.name[odd] = "fo"
+			target = strings.ReplaceAll(odd, "&", "&amp;")
+		}
 		q4 += fmt.Sprintf(` <a href="%s">l%d</a>`, target, k)
 	}
 	note("q4", map[string]any{"content": q4 + "</p>"})
